@@ -41,6 +41,25 @@ async def one(m, m_as_label, roe, nror, outcomes):
         await asyncio.sleep(0); await b.wait_all()
     return runs, stored, seen
 
+async def one_inmemory(m, nror, outcomes):
+    from taskiq import InMemoryBroker
+    from taskiq.middlewares.retry_middleware import SimpleRetryMiddleware
+    from taskiq.exceptions import NoResultError
+    from taskiq.abc.broker import AsyncBroker
+    AsyncBroker.global_task_registry = {}
+    b = InMemoryBroker(); b.add_middlewares(SimpleRetryMiddleware(default_retry_count=m, no_result_on_retry=nror)); runs = []
+    async def t(x):
+        i = len(runs); o = outcomes[i] if i < len(outcomes) else 'ok'; runs.append(o)
+        if o == 'fail': raise ValueError(f"attempt {i + 1}")
+        return i + 1
+    task = b.register_task(t, task_name='t', retry_on_error=True)
+    await task.kicker().with_task_id('the-id').kiq(41)
+    for _ in range(12):
+        await asyncio.sleep(0); await b.wait_all()
+    r = b.result_backend.results.get('the-id')
+    if r is None: return None
+    return ('err', int(str(r.error).split()[-1])) if r.is_err else ('ok', r.return_value)
+
 def expected(m, enabled, outcomes):
     n = 0
     while True:
@@ -66,6 +85,12 @@ def run(sc):
                         if len(runs) == want_n and stored != want_stored: pr.append(f"C11: stored results {stored}, expected {want_stored} (no_result_on_retry={nror})")
                         if nror and len(runs) == want_n and len(stored) > len(want_stored): pr.append(f"C07: {len(stored)} results were stored although only the final attempt has an outcome to store (re-sent attempts signal no-result): {stored}")
                         if pr and len(fails) < 40: fails.append({'key': f"m={m}/{m_as_label}/{roe}/{nror}/{outcomes[:3]}", 'failed_clauses': pr})
+    # the same through the REAL in-memory result backend: what a client reads back under the task id is the final attempt's outcome
+    for nror in (True, False):
+        for outcomes, want in ((['fail', 'ok'], ('ok', 2)), (['fail', 'fail', 'ok'], ('ok', 3)), (['fail'] * 8, ('err', 3))):
+            got = asyncio.run(one_inmemory(3, nror, outcomes)); n += 1
+            if got != want:
+                for pid in ('C11', 'C07'): fails.append({'key': f"inmemory-backend/{nror}/{outcomes[:3]}", 'failed_clauses': [f"{pid}: InMemoryBroker with its own result backend, max_retries=3, no_result_on_retry={nror}, outcomes {outcomes[:3]}: the result read back under the task id is {got}, expected the final attempt's outcome {want}"]})
     return {'reproduced': bool(fails), 'runs': n, 'n_failures': len(fails), 'failures': fails[:400]}
 
 if __name__ == '__main__':
